@@ -28,12 +28,22 @@ Section M.
   (** one (field, wavelength) entry of [self.data]: x, y, intensity at the image surface *)
   Record spot := mkSpot { sx : list T; sy : list T; si : list T }.
 
-  (** SpotDiagram.centroid: [field_data[norm_index]] with norm_index = optic.wavelengths.primary_index;
-      [None] = IndexError.  EncircledEnergy.centroid is the same with index 0. *)
+  (** SpotDiagram._reference_index: position of the lens's primary wavelength in the wavelengths the diagram was
+      built for; the first listed wavelength when the primary is not among them *)
+  Fixpoint find_wave (ws : list T) (wref : T) : option nat :=
+    match ws with
+    | [] => None
+    | w :: r => if eqb_ w wref then Some 0%nat else option_map S (find_wave r wref)
+    end.
+  Definition reference_index (ws : list T) (wp : T) : nat :=
+    match find_wave ws wp with Some k => k | None => 0%nat end.
+
+  (** SpotDiagram.centroid: [field_data[norm_index]] with norm_index = self._reference_index(); failed rays (NaN)
+      are ignored (np.nanmean); [None] = IndexError.  EncircledEnergy.centroid is the same with index 0. *)
   Definition centroid1 (pidx : Z) (fd : list spot) : option (T * T) :=
     match nthZ fd pidx with
     | None => None
-    | Some s => Some (mean_ (sx s), mean_ (sy s))
+    | Some s => Some (nanmean_ (sx s), nanmean_ (sy s))
     end.
   Definition centroid (pidx : Z) (data : list (list spot)) : option (list (T * T)) :=
     all_some (map (centroid1 pidx) data).
@@ -51,12 +61,16 @@ Section M.
   Definition radii (s : spot) : list T := lmap sqrt_ (radii2 s).
 
   (** SpotDiagram.geometric_spot_radius / rms_spot_radius *)
-  Definition geo1 (s : spot) : T := max_list (radii s).
-  Definition rms1 (s : spot) : T := sqrt_ (mean_ (radii2 s)).
+  Definition geo1 (s : spot) : T := nanmax_list (radii s).
+  Definition rms1 (s : spot) : T := sqrt_ (nanmean_ (radii2 s)).
   Definition geometric_spot_radius (pidx : Z) (data : list (list spot)) : option (list (list T)) :=
     option_map (map (map geo1)) (center_spots pidx data).
   Definition rms_spot_radius (pidx : Z) (data : list (list spot)) : option (list (list T)) :=
     option_map (map (map rms1)) (center_spots pidx data).
+  (** the three queries of a diagram built for the wavelengths [ws] on a lens whose primary wavelength is [wp] *)
+  Definition spot_centroid (ws : list T) (wp : T) := centroid (Z.of_nat (reference_index ws wp)).
+  Definition spot_geo (ws : list T) (wp : T) := geometric_spot_radius (Z.of_nat (reference_index ws wp)).
+  Definition spot_rms (ws : list T) (wp : T) := rms_spot_radius (Z.of_nat (reference_index ws wp)).
 
   (** ** Encircled energy: [vectorized_ee r = np.nansum(energy[radii <= r])] on centred spots *)
   Fixpoint select_le (r : T) (rad en : list T) : list T :=
@@ -80,12 +94,10 @@ Section M.
 
   (** ** Ray fan: dictionary keyed by the wavelength; the reference is optic.primary_wavelength *)
   Record fan := mkFan { fx : list T; fix_ : list T; fy : list T; fiy : list T }.
-  Fixpoint find_wave (ws : list T) (wref : T) : option nat :=
-    match ws with
-    | [] => None
-    | w :: r => if eqb_ w wref then Some 0%nat else option_map S (find_wave r wref)
-    end.
-  (** one field; [None] = KeyError (the primary wavelength is not among the keys) *)
+  (** reference wavelength of the fan: the primary wavelength when it is a key, the first listed one otherwise *)
+  Definition rayfan_ref (ws : list T) (wp : T) : T :=
+    match find_wave ws wp with Some _ => wp | None => hd wp ws end.
+  (** one field, reference wavelength [wref]; [None] = KeyError (the reference is not among the keys) *)
   Definition rayfan_field (ws : list T) (wref : T) (npts : Z) (fans : list fan) : option (list fan) :=
     match find_wave ws wref with
     | None => None
@@ -99,24 +111,27 @@ Section M.
                                       (lmap (fun v => sub v yo) (fy f)) (fiy f)) fans)
         end
     end.
-  Definition rayfan (ws : list T) (wref : T) (npts0 : Z) (data : list (list fan)) : option (list (list fan)) :=
-    all_some (map (rayfan_field ws wref (k_rayfan_init O npts0)) data).
+  Definition rayfan (ws : list T) (wp : T) (npts0 : Z) (data : list (list fan)) : option (list (list fan)) :=
+    all_some (map (rayfan_field ws (rayfan_ref ws wp) (k_rayfan_init O npts0)) data).
 
   (** ** Pupil aberration: (paraxial - real) / d * 100, NaN where the real ray has no intensity *)
   Definition mask_nan (e i : T) : T := if eqb_ i (ofZ 0) then nan_ else e.
   Definition pupil_err (d : T) (parax real inten : list T) : list T :=
     lmap2 mask_nan (lmap (fun v => mul (div v d) (ofZ 100)) (lmap2 sub parax real)) inten.
 
-  (** ** Distortion: per wavelength, the translated arithmetic on that wavelength's chief-ray heights *)
-  Definition distortion (ty : string) (maxf : T) (Hy : list T) (yrs : list (list T)) : option (list (list T)) :=
+  (** ** Distortion: per wavelength, the translated arithmetic on that wavelength's chief-ray heights;
+      [height] = the fields are object heights *)
+  Definition distortion (height : bool) (ty : string) (maxf : T) (Hy : list T) (yrs : list (list T)) : option (list (list T)) :=
     match yrs with
     | [] => Some []
     | _ =>
-        if String.eqb ty "f-tan" then
+        if negb (orb (String.eqb ty "f-tan") (String.eqb ty "f-theta")) then None
+        else if height then
+          all_some (map (fun yr => option_map (fun d => List.concat d) (k_distortion_height O Hy [ofZ 0] yr)) yrs)
+        else if String.eqb ty "f-tan" then
           all_some (map (fun yr => option_map (fun d => List.concat d) (k_distortion_ftan O Hy [ofZ 0] yr maxf)) yrs)
-        else if String.eqb ty "f-theta" then
+        else
           all_some (map (fun yr => option_map (fun d => List.concat d) (k_distortion_ftheta O Hy [ofZ 0] yr maxf)) yrs)
-        else None
     end.
   (** the field samples  np.linspace(1e-10, 1, n) *)
   Definition distortion_Hy (tiny : T) (n : nat) : list T := linspace tiny (ofZ 1) n.
@@ -126,8 +141,8 @@ Section M.
     let m := div (sqrt_ (ofZ 2)) (ofZ 2) in linspace (neg m) m n.
   Definition grid_Hx (n : nat) : list T := List.concat (map (fun _ => grid_extent n) (grid_extent n)).
   Definition grid_Hy (n : nat) : list T := List.concat (map (fun v => map (fun _ => v) (grid_extent n)) (grid_extent n)).
-  Definition grid_distortion (ty : string) (y_ref maxf : T) (n : nat) (xr yr : list T) :=
-    k_grid_distortion O ty y_ref maxf (grid_Hx n) (grid_Hy n) xr yr.
+  Definition grid_distortion (ty fty : string) (x_ref y_ref maxf : T) (n : nat) (xr yr : list T) :=
+    k_grid_distortion O y_ref x_ref ty fty (grid_Hx n) (grid_Hy n) maxf xr yr.
 
   (** ** Field curvature: the trace holds the parabasal pairs interleaved (-delta, +delta, -delta, ...) *)
   Fixpoint evens (l : list T) : list T :=
